@@ -2,6 +2,7 @@ package gov
 
 import (
 	"fmt"
+	"strconv"
 	"go/token"
 	"go/types"
 	"strings"
@@ -246,6 +247,20 @@ func (fr *Frame) logCallIf(alias string, cc *ssa.CallCommon, res Val, cond Term)
 			g[key] = fr.define("log", Ite(isNth, at, old))
 		}
 	}
+	for i, r := range results {
+		key := fmt.Sprintf("last.%s.%d", alias, i)
+		rt := fr.termOf(r)
+		if _, seen := fr.R.trackTypes[key]; !seen {
+			fr.R.trackTypes[key] = resTypes[i]
+		}
+		old, ok := g[key]
+		if !ok {
+			old = fr.R.Sc.Declare("never."+sanitize(key), rt.Sort)
+		}
+		if old.Sort == rt.Sort {
+			g[key] = fr.define("log", Ite(cond, rt, old))
+		}
+	}
 	g[cntKey] = fr.define("cnt", Ite(cond, Add(cnt, IntLit(1)), cnt))
 }
 
@@ -296,10 +311,16 @@ func (fr *Frame) dispatchCall(instr ssa.Instruction, cc *ssa.CallCommon, pos tok
 		return fr.havocCall(cc, args, true, pos)
 	}
 	if c := eng.ContractFor(fn); c != nil && !c.Inline {
+		var res Val
 		if len(fn.FreeVars) > 0 && len(bindings) == len(fn.FreeVars) {
-			return fr.applyContractBound(c, fn, cc, args, bindings, pos)
+			res = fr.applyContractBound(c, fn, cc, args, bindings, pos)
+		} else {
+			res = fr.applyContract(c, fn, cc, args, pos)
 		}
-		return fr.applyContract(c, fn, cc, args, pos)
+		if fn.String() == "fmt.Errorf" {
+			fr.errorfWraps(cc, res)
+		}
+		return res
 	}
 	if special := fr.specialCall(fn, cc, args, pos); special != nil {
 		return *special
@@ -964,4 +985,69 @@ func (fr *Frame) havocReach(ty types.Type, root Term) {
 	default:
 		deeper(ty)
 	}
+}
+
+// errorfWraps adds the error-chain facts of fmt.Errorf with a constant format: the result wraps exactly the
+// arguments at %w positions (errors.Is sees through them, and through nothing else).
+func (fr *Frame) errorfWraps(cc *ssa.CallCommon, res Val) {
+	c, ok := cc.Args[0].(*ssa.Const)
+	if !ok || c.Value == nil {
+		return
+	}
+	format := constantString(c)
+	// verbs in order
+	var wrapIdx []int
+	n := 0
+	for i := 0; i < len(format); i++ {
+		if format[i] != '%' {
+			continue
+		}
+		i++
+		for i < len(format) && strings.ContainsRune("+-# 0123456789.[]*", rune(format[i])) {
+			i++
+		}
+		if i >= len(format) {
+			break
+		}
+		if format[i] == '%' {
+			continue
+		}
+		if format[i] == 'w' {
+			wrapIdx = append(wrapIdx, n)
+		}
+		n++
+	}
+	sc := fr.R.Sc
+	sc.DeclareFun("sf.errIs", []Sort{SIface, SIface}, SBool)
+	fr.R.Trusted["fmt.Errorf error-chain model: the result wraps exactly its %w arguments"] = true
+	r := fr.termOf(res)
+	var wrapped []Term
+	if len(cc.Args) > 1 && len(wrapIdx) > 0 {
+		va := fr.termOf(fr.val(cc.Args[1]))
+		anyT := types.Universe.Lookup("any").Type()
+		for _, wi := range wrapIdx {
+			l := &Loc{Kind: LElem, Ref: app(SInt, "s-arr", va), Idx: Add(app(SInt, "s-off", va), IntLit(int64(wi))), Type: anyT}
+			wrapped = append(wrapped, fr.load(l))
+		}
+	}
+	t := fmt.Sprintf("t?%d", sc.n)
+	sc.n++
+	var ds []string
+	ds = append(ds, fmt.Sprintf("(= %s %s)", t, r.S))
+	for _, w := range wrapped {
+		fr.assume(Implies(Not(Eq(app(SInt, "i-typ", w), IntLit(0))), app(SBool, "sf.errIs", r, w)))
+		ds = append(ds, fmt.Sprintf("(sf.errIs %s %s)", w.S, t))
+	}
+	fr.assume(T(fmt.Sprintf("(forall ((%s Iface)) (! (= (sf.errIs %s %s) (or %s)) :pattern ((sf.errIs %s %s))))", t, r.S, t, strings.Join(ds, " "), r.S, t), SBool))
+}
+
+func constantString(c *ssa.Const) string {
+	if c.Value == nil {
+		return ""
+	}
+	s := c.Value.ExactString()
+	if u, err := strconv.Unquote(s); err == nil {
+		return u
+	}
+	return s
 }
